@@ -134,7 +134,7 @@ fn node_at_mut<'a>(forms: &'a mut [Node], path: &[usize]) -> Option<&'a mut Node
 
 /// Paths (from the top level) of all action sites in deflayer cells and defalias values.
 /// `nested` tells whether the site is inside another action.
-fn action_sites(forms: &[Node]) -> Vec<(Vec<usize>, bool)> {
+fn action_sites(forms: &[Node], with_virtual_keys: bool) -> Vec<(Vec<usize>, bool)> {
     fn rec(n: &Node, path: Vec<usize>, nested: bool, out: &mut Vec<(Vec<usize>, bool)>) {
         // a flag of the enclosing multi, not an action of its own
         if n.as_atom() == Some("reverse-release-order") {
@@ -171,6 +171,16 @@ fn action_sites(forms: &[Node]) -> Vec<(Vec<usize>, bool)> {
                 }
             }
             Some("defalias") => {
+                if let Some(l) = f.as_list() {
+                    let mut i = 2;
+                    while i < l.len() {
+                        rec(&l[i], vec![fi, i], false, &mut out);
+                        i += 2;
+                    }
+                }
+            }
+            // (aliases cannot be used inside defvirtualkeys - documented - but templates can)
+            Some("deffakekeys") | Some("defvirtualkeys") if with_virtual_keys => {
                 if let Some(l) = f.as_list() {
                     let mut i = 2;
                     while i < l.len() {
@@ -221,9 +231,14 @@ fn value_sites(forms: &[Node]) -> Vec<Vec<usize>> {
     }
     let mut out = vec![];
     for (fi, f) in forms.iter().enumerate() {
+        let n = f.as_list().map(|l| l.len()).unwrap_or(0);
         let cells: Vec<usize> = match f.head() {
-            Some("deflayer") => (2..f.as_list().map(|l| l.len()).unwrap_or(0)).collect(),
-            Some("defalias") => (2..f.as_list().map(|l| l.len()).unwrap_or(0)).step_by(2).collect(),
+            Some("deflayer") => (2..n).collect(),
+            Some("defalias") | Some("deffakekeys") | Some("defvirtualkeys") => (2..n).step_by(2).collect(),
+            // (defchords name timeout (keys) action ...)
+            Some("defchords") => (4..n).step_by(2).collect(),
+            // (defchordsv2 (keys) action timeout release (layers) ...)
+            Some("defchordsv2") => (2..n).step_by(5).collect(),
             _ => vec![],
         };
         for i in cells {
@@ -255,7 +270,7 @@ impl Rw {
 
     /// name an action with defalias
     fn alias(&mut self, t: &mut Tape) -> bool {
-        let sites = action_sites(&self.forms);
+        let sites = action_sites(&self.forms, false);
         if sites.is_empty() {
             return false;
         }
@@ -331,7 +346,7 @@ impl Rw {
 
     /// wrap an action into a template with one parameter
     fn template(&mut self, t: &mut Tape) -> bool {
-        let sites: Vec<(Vec<usize>, bool)> = action_sites(&self.forms)
+        let sites: Vec<(Vec<usize>, bool)> = action_sites(&self.forms, true)
             .into_iter()
             .filter(|(p, _)| matches!(node_at(&self.forms, p), Some(Node::List(l)) if l.len() >= 2 && l[0].as_atom().map(|a| !a.starts_with("template-expand") && a != "t!").unwrap_or(false)))
             .collect();
@@ -670,7 +685,7 @@ impl TypedProp for C16 {
     fn info(&self) -> PropInfo {
         PropInfo {
             level: "exploration",
-            rule: "configs: the whole-grammar generator (plausible profile, and the acceptance-boundary profile for the 'accepted iff' direction). Rewrites, 1-6 per case, at sites chosen by the tape: an action (deflayer cell, defalias value, or an action nested in tap-hold / multi / one-shot / tap-dance / fork / switch) named with defalias; an atom or list inside an action named with defvar (directly, through a second variable, built with concat); an action wrapped into a one-parameter deftemplate and expanded with template-expand / t!, with an atom or a list as argument, optionally under a true if-equal and / or with a true if-equal (or a nested pair of them) around an action nested in the body; a top-level form moved into an included file; a top-level form wrapped in (platform (linux ..)); a deflayer expressed as the deflayermap listing every defsrc key. Oracle (metamorphic, both texts through the real parser): acceptance agrees; when accepted the layer tables, key outputs, mapped keys, overrides, sequences, options, virtual keys and chords are identical and three random histories give identical timestamped output. Non-trivial: >= 2 different rewrite kinds applied. Distinct: hash of the case.".into(),
+            rule: "configs: the whole-grammar generator (plausible profile, and the acceptance-boundary profile for the 'accepted iff' direction). Rewrites, 1-6 per case, at sites chosen by the tape: an action (deflayer cell, defalias value, or an action nested in tap-hold / multi / one-shot / tap-dance / fork / switch) named with defalias; an atom or list inside an action (of a deflayer, defalias, defvirtualkeys / deffakekeys, defchords or defchordsv2 entry) named with defvar (directly, through a second variable, built with concat); an action (also a virtual key's) wrapped into a one-parameter deftemplate and expanded with template-expand / t!, with an atom or a list as argument, optionally under a true if-equal and / or with a true if-equal (or a nested pair of them) around an action nested in the body; a top-level form moved into an included file; a top-level form wrapped in (platform (linux ..)); a deflayer expressed as the deflayermap listing every defsrc key. Oracle (metamorphic, both texts through the real parser): acceptance agrees; when accepted the layer tables, key outputs, mapped keys, overrides, sequences, options, virtual keys and chords are identical and three random histories give identical timestamped output. Non-trivial: >= 2 different rewrite kinds applied. Distinct: hash of the case.".into(),
             assumptions: vec!["rewrites are applied only where the documentation allows the construct (variables inside actions, aliases as actions, include/platform at top level)".into()],
             extra: BTreeMap::new(),
         }
